@@ -71,6 +71,8 @@ def check(run):
     run.need(W is not None and E is not None, "anchor classes WelfordTracker / ExponentialSmoothingTracker vanished")
     _welford(run, prog, W)
     _smoothing(run, prog, E)
+    from .common import ctor_wiring
+    ctor_wiring(run, prog, E, "CTOR")               # the smoothing parameter as configured
 
 
 # ------------------------------------------------------------------------------------------------
@@ -89,10 +91,28 @@ def _welford(run, prog, W):
 
     observables = {"mean": "mean", "var": "var", "std": "std", "get": "get", "__call__": "get", "N": "count"}
     getters = {}
+    base_fields_ = {"N", "tracked_value", "sum_squares"}
+    stale = set()
     for name in observables:
         ret, s = _getter(prog, W, name)
         getters[name] = ret
         run.analysed_fn(f"{W.name}.{name}")
+        # a getter that stores what it computes and returns the stored value while a validity test holds: the
+        # test must cover every field the stored value is computed from (here N changes on every update)
+        if s is not None:
+            from ..paths import walk as _walk
+            for ev, ctx in _walk(s.events):
+                if isinstance(ev, ir.Store) and ("field0", ev.field) in ir.subterms(ret) and ev.field not in base_fields_:
+                    deps = {t[1] for t in ir.subterms(ev.value) if t[0] == "field0"} & base_fields_
+                    tested = {t[1] for g in ctx.guards for t in ir.subterms(g) if t[0] == "field0"} & base_fields_
+                    missing = sorted(deps - tested)
+                    if missing:
+                        stale.add(name)
+                        run.fail("INDUCT", f"Welford.step.{name}", f"{s.path}:{ev.line}", f"{W.name}.{name}",
+                                 f"{name} caches self.{ev.field} = {ir.show_nl(ev.value)[:80]}",
+                                 f"{name} returns a stored value that is recomputed only when {sorted(tested)} changed, but "
+                                 f"it is computed from {sorted(deps)}: after an update that changes {missing} alone the "
+                                 f"old value is returned")
 
     # reference closed forms (terms over n, S, Q, v)
     def refs(n, S, Q):
@@ -111,9 +131,18 @@ def _welford(run, prog, W):
             pre[ret] = pre_ref[observables[name]]
     post_ref = refs(op("+", N_, c(1)), op("+", S_, V_), op("+", Q_, op("*", V_, V_)))
     for name, kind in observables.items():
+        if name in stale:
+            continue
         cand = _compose(getters[name], {f: post.get(f, ("field0", f)) for f in _fields_read(getters[name]) | set(post)})
         cand = substitute(cand, pre)
         unknown = _fields_read(cand)
+        memo = sorted(f for f in unknown if f.startswith("#memo:"))
+        if memo:
+            run.fail("INDUCT", f"Welford.step.{name}", f"{path}:{line}", fn, f"{name} goes through the memoised {memo[0][6:]}",
+                     f"after update at n>=1, {name} must equal the closed form of {kind}; `{memo[0][6:]}` is memoised "
+                     f"(cached_property / lru_cache): once read it keeps returning the value of that moment, whatever "
+                     f"is observed afterwards")
+            continue
         if unknown:
             raise AnalysisError(f"WelfordTracker.{name} reads state outside the analysed schema: {sorted(unknown)}")
         cand = resolve_minmax(cand, N_, 1)
@@ -126,6 +155,8 @@ def _welford(run, prog, W):
         cand = _compose(getters[name], {f: post.get(f, ("field0", f)) for f in _fields_read(getters[name]) | set(post)})
         cand = substitute(cand, init_map)
         unknown = _fields_read(cand)
+        if any(f.startswith("#memo:") for f in unknown):
+            continue                    # memoised getter: already reported by the step case
         if unknown:
             raise AnalysisError(f"WelfordTracker.{name} reads uninitialised state: {sorted(unknown)}")
         cand = fold_minmax(cand)
